@@ -9,6 +9,9 @@ VERIF = os.path.dirname(os.path.dirname(os.path.abspath(__file__)))
 GAME_NOTE = ("Trusted: the laws of chess as written in spec/Chess.tla (cross-checked by TLC against published perft counts), "
              "the snapshot hook, TLC. Exhaustive within the listed families/bounds; beyond them sampled.")
 
+SEARCH_NOTE = ("Trusted: spec/Chess.tla, the poll hook, TLC. The search is driven in-process on the real functions with a shared real table; "
+               "histories beyond the enumerated bounds are sampled.")
+
 CHECKS = {
     "C01": ("TLA+ reference rules (Chess.tla) explored by TLC; TLC-enumerated position families replayed into the real move "
             "generator and random/search-shaped traces of it validated by TraceGame.tla (trace validation both directions)",
@@ -30,6 +33,26 @@ CHECKS = {
             "position and VIEW hash over families, legal play and the positions the drivers visited; (c) every single-feature variant of base "
             "positions is imported by the engine and TLC judges hash = Hash and hashes differ.", "6-C05",
             "Collision freedom is over the explored set only. Relies on C04 for impl hash = model hash."),
+    "C06": ("SearchCtl.tla (design-level driver + table model) explored by TLC for all table histories; its scenarios instantiated on TLC-classified positions and run on the real search; TraceSearch.tla judges bestmove in LegalTexts(root)",
+            "TLC checks on SearchCtl.tla that every completed search announces a legal move for all histories of 2-3 searches sharing a table; "
+            "each abstract history is executed on the real search (shared real table) on positions whose kind TLC classified, plus "
+            "same-game / other-game / deeper-then-shallower histories; TLC judges every announced move against Chess!Legal.", "6-C06", SEARCH_NOTE),
+    "C07": ("TLC-enumerated stop classes (SearchCtl.tla StopNow) + exhaustive sweep of the stop poll index 0..total on the real search via the poll hook; TraceSearch.tla judges legality and polls-after-stop <= 1",
+            "For each sampled position the real search is re-run once per node-entry poll index (every index from 0 to the end of the search "
+            "within the cap), fresh and warmed tables; TLC requires a legal move whenever one exists and at most one poll after the flag went down.", "6-C07", SEARCH_NOTE),
+    "C08": ("SearchCtl.tla invariants (depth <= limit, counter ranges) and liveness (search terminates) checked by TLC; real search run on limit pairs, limits to 255, unlimited runs; TraceSearch.tla judges reported depths",
+            "TLC proves on the design model that no history makes a limited search exceed its limit or run on; the real search is run on all "
+            "deeper-then-shallower limit pairs, limit classes up to 255 on tiny positions and unlimited runs under a watchdog; TLC requires every "
+            "reported depth <= limit, return without external stop once the limit is reached, and no panic.", "6-C08",
+            SEARCH_NOTE + " A watchdog stop while all reported depths are below the limit is treated as a slow search (no verdict)."),
+    "C09": ("RefSearch.tla (unpruned negamax with the named leaf rule) evaluated by TLC on full game trees dumped from the real engine, compared with the table-less optimised search under several ordering states",
+            "For each (position, depth) the whole tree is dumped with the engine's generator and evaluation; the real search runs with the table "
+            "emptied at every node (hook) and with fresh / random history tables; TLC computes the exhaustive value and requires equality after "
+            "mate-range clamping.", "6-C09", "TLC as evaluator of a transcribed pure function; trees <= 60000 nodes (depth <= 4 sparse, <= 2 rich)."),
+    "C10": ("Chess.tla as independent mate solver (MateIn1Moves, KeepsMate2Moves, dead roots) run by TLC over a generated family; real search judged by TraceSearch.tla",
+            "TLC classifies every member of the K+Q/R v K rim family (and fixed extra positions) into mate-in-1, forced mate-in-2, checkmated, "
+            "stalemated; the real search runs from a fresh table to depth 3-5 / 5-6 / unlimited; TLC requires a mating / mate-keeping move, "
+            "self-termination once a mate score is reported, and no move in dead positions.", "6-C10", SEARCH_NOTE),
     "C11": ("Fen.tla printer and parser judged against every exported FEN of every trace state; re-import observed through the snapshot hook",
             "TLC checks printer/parser are inverse on all explored states; for every state of families and recorded games the exported text "
             "must equal FenFields(snapshot), be a well-formed six-field FEN, parse to the position, and its re-import must give the same "
@@ -47,6 +70,14 @@ CHECKS = {
             "multi-edits, is imported under catch_unwind; TLC classifies each string and requires: never a panic, MustReject refused, "
             "MustAccept imported as Parse(text) with its legal moves.", "6-C17",
             "Grey inputs produce no verdict. The grammar in spec/Fen.tla is the trusted statement of 'well-formed'."),
+    "C18": ("TraceSearch.tla Playable(root, pv) judged on every info pv line of searches run over shared-table histories",
+            "Every principal variation printed by the real search (captured per search) over same-game, other-game, deeper/shallower and "
+            "aborted-search table histories is replayed move by move on Chess.tla; each move must be legal where it is played.", "6-C18", SEARCH_NOTE),
+    "C19": ("functional-dependency monitor (memo variable) in TraceSearch.tla over repeated fresh-table searches after varied histories ending in a reset",
+            "The same (position, depth) is searched from a fresh table, and again after different histories (other positions, other depths, "
+            "aborted searches) followed by a table reset; TLC keeps the first result and requires every later one (best move, scores, "
+            "principal variations, depths) to be identical.", "6-C19",
+            "Reproducibility is decided over the perturbations exercised; there is no model of the allocator or hash-map internals."),
     "C20": ("Show.tla expected diagram / FEN line / hash line / move-record tokens judged on the engine's Display output along recorded games",
             "Along games played into the record (all move kinds, all four promotion pieces with and without capture) TLC compares the "
             "transliterated diagram, the Fen and Hash lines and every record token with what Show.tla prescribes.", "6-C20", GAME_NOTE),
